@@ -106,7 +106,7 @@ def main(prop: str, tier: str) -> int:
     docs, r = doclib.layouts(max_lines=3 if tier == 'quick' else 4, accepted_only=True)
     ndocs = reads = 0
     with mp.Pool(16) as pool:
-        for nd, nr, out in pool.imap_unordered(_chunk, [([common.seed() % 12], ch) for ch in common.chunked(docs, 40)]):
+        for nd, nr, out in common.gmap(pool, rep, _chunk, [([common.seed() % 12], ch) for ch in common.chunked(docs, 40)]):
             ndocs += nd
             reads += nr
             for kind, msg, text in out:
